@@ -79,12 +79,67 @@ def base_name(node):
     return node.id if isinstance(node, ast.Name) else None
 
 
+def class_family(trees, names):
+    """FunctionDefs of the named classes (searched in the given module trees), keyed by method name (list: overrides)"""
+    out = {}
+    for tree in trees:
+        for node in tree.body:
+            if isinstance(node, ast.ClassDef) and node.name in names:
+                for f in node.body:
+                    if isinstance(f, ast.FunctionDef):
+                        out.setdefault(f.name, []).append(f)
+    return out
+
+
+def writes_self(fn):
+    """does the method store to an attribute / item rooted at self, or call a mutator on one?"""
+    for s in ast.walk(fn):
+        if isinstance(s, (ast.Assign, ast.AugAssign, ast.AnnAssign)):
+            targets = s.targets if isinstance(s, ast.Assign) else [s.target]
+            for t in targets:
+                for sub in ast.walk(t):
+                    if isinstance(sub, (ast.Attribute, ast.Subscript)) and base_name(sub) == 'self':
+                        return True
+        if isinstance(s, ast.Call) and isinstance(s.func, ast.Attribute) and s.func.attr in MUTATORS \
+                and isinstance(s.func.value, (ast.Attribute, ast.Subscript)) and base_name(s.func.value) == 'self':
+            return True
+        if isinstance(s, (ast.Global, ast.Nonlocal)):
+            return True
+    return False
+
+
+def callee_shared(family, class_names, entry):
+    """Transitive closure from method ``entry`` over self.X(...) / Class.X(...) calls inside the class family:
+    True if any reachable method writes shared (self) state.  Unknown callees on self are treated as writing (fail closed)."""
+    seen, todo = set(), [entry]
+    while todo:
+        name = todo.pop()
+        if name in seen:
+            continue
+        seen.add(name)
+        if name not in family:
+            return True
+        for fn in family[name]:
+            if name != '__init__' and writes_self(fn):
+                return True
+            for c in calls_in(fn):
+                if isinstance(c.func, ast.Attribute):
+                    recv = ast.unparse(c.func.value)
+                    if recv == 'self' or recv in class_names or recv == 'super()':
+                        if c.func.attr in family or recv == 'self':
+                            # attribute reads that are properties are not calls; only follow names defined as methods
+                            if c.func.attr in family:
+                                todo.append(c.func.attr)
+    return False
+
+
 class Worker:
     """Translate a worker body into the stmt IR (as Coq text)."""
 
-    def __init__(self, inline=None, shared_names=()):
+    def __init__(self, inline=None, shared_names=(), callee_writes=None):
         self.inline = inline or {}      # call text -> already translated stmt list (Coq text list)
         self.shared = set(SHARED_BASES) | set(shared_names)
+        self.callee_writes = callee_writes or (lambda recv, meth: False)   # does recv.meth(...) write state shared between blocks?
 
     def expr_stmts(self, node):
         """IR statements for evaluating an expression / simple statement."""
@@ -109,6 +164,10 @@ class Worker:
                         mentioned.add(RES[nm])
             for r in sorted(mentioned):
                 out.append(f'SAccess {r}')
+            # a method of an object shared between blocks (the reader `self`, the `model`) that stores to that object
+            if isinstance(c.func, ast.Attribute) and isinstance(c.func.value, ast.Name) and c.func.value.id in self.shared \
+                    and self.callee_writes(c.func.value.id, c.func.attr):
+                out.append('SSharedWrite')
             # mutating call on shared state
             if isinstance(c.func, ast.Attribute) and c.func.attr in MUTATORS and base_name(c.func.value) in self.shared \
                     and isinstance(c.func.value, (ast.Attribute, ast.Subscript)):
@@ -356,12 +415,27 @@ def locks_ok():
 def generate():
     rp, fu, cm, st = parse('raster_pair.py'), parse('fuse.py'), parse('compare.py'), parse('stats.py')
     lst = lambda xs: '[' + '; '.join(xs) + ']'  # noqa: E731
-    read_ir = Worker().stmts(find_func(rp, 'RasterPairReader', 'read').body)
-    fuse_ir = Worker(inline={'self.read': read_ir}).stmts(find_func(fu, 'RasterFuse', '_process_block').body)
-    cmp_ir = Worker(inline={'self.read': read_ir}, shared_names=['image_sums']).stmts(
+    km, mp = parse('kernel_model.py'), parse('matched_pair.py')
+    model_cls = ['KernelModel', 'RefSpaceModel', 'SrcSpaceModel']
+    model_family = class_family([km], model_cls)
+    reader_cls = ['RasterPairReader', 'MatchedPairReader', 'RasterFuse', 'RasterCompare']
+    reader_family = class_family([rp, mp, fu, cm], reader_cls)
+    stats_family = class_family([st], ['ParamStats'])
+
+    def callee_writes(recv, meth, self_family=reader_family, self_cls=reader_cls):
+        if recv == 'model':
+            return callee_shared(model_family, model_cls, meth)
+        if recv == 'self':
+            return callee_shared(self_family, self_cls, meth) if meth in self_family else False
+        return False
+    read_ir = Worker(callee_writes=callee_writes).stmts(find_func(rp, 'RasterPairReader', 'read').body)
+    fuse_ir = Worker(inline={'self.read': read_ir}, callee_writes=callee_writes).stmts(find_func(fu, 'RasterFuse', '_process_block').body)
+    cmp_ir = Worker(inline={'self.read': read_ir}, shared_names=['image_sums'], callee_writes=callee_writes).stmts(
         find_func(cm, 'RasterCompare', 'process', 'get_block_sums').body)
-    sw_ir = Worker(shared_names=['im_data_win']).stmts(find_func(st, 'ParamStats', '_get_data_window', 'get_block_data_window').body)
-    ss_ir = Worker(shared_names=['image_accum']).stmts(find_func(st, 'ParamStats', 'stats', 'get_block_sums').body)
+    stats_writes = lambda recv, meth: callee_writes(recv, meth, stats_family, ['ParamStats'])  # noqa: E731
+    sw_ir = Worker(shared_names=['im_data_win'], callee_writes=stats_writes).stmts(
+        find_func(st, 'ParamStats', '_get_data_window', 'get_block_data_window').body)
+    ss_ir = Worker(shared_names=['image_accum'], callee_writes=stats_writes).stmts(find_func(st, 'ParamStats', 'stats', 'get_block_sums').body)
     process = find_func(fu, 'RasterFuse', 'process')
     rows = opens_survey()
     cli = cli_info()
